@@ -111,6 +111,12 @@ def gw_aliases():
     raise Declined("GWFlowProposal.aliases not found")
 
 
+def prior_functions():
+    """names of the top-level functions of nessai/priors.py (the prime-space priors offered)"""
+    tree, _ = parse("nessai/priors.py")
+    return [n.name for n in tree.body if isinstance(n, ast.FunctionDef)]
+
+
 def rescaling_functions():
     tree, _ = parse("nessai/utils/rescaling.py")
     d = _dict_assign(tree, "rescaling_functions")
